@@ -111,6 +111,13 @@ func (tx *txAddKey) Apply(ring *KeyRing) error {
 	if k != nil {
 		return errTxKeyExists
 	}
+	// The seqnum has been computed from the view of the key ring that the caller had.
+	// If the ring has moved on (e.g., it has been replaced by an import and then extended
+	// by other writers), an unused seqnum may still be lower than the last one. Appending it
+	// would break the ordering of seqnums, which nextSeqnum() and key listings rely on.
+	if n := len(ring.data.Keys); n > 0 && tx.newKey.Seqnum <= ring.data.Keys[n-1].Seqnum {
+		return errTxConcurrentModification
+	}
 	ring.data.Keys = append(ring.data.Keys, *tx.newKey)
 	return nil
 }
